@@ -389,4 +389,79 @@ def gen_ids() -> tuple[str, dict]:
     return '\n'.join(lines) + '\n', side
 
 
-GEN = {'VmfIds_gen': gen_ids}
+# ------------------------------------------------------------------------------------------------ membership sets
+SET_WORDS = ('set[', 'Set[', 'MutableSet', 'AbstractSet', 'frozenset')
+
+
+def set_attrs(cls: ast.ClassDef) -> set[str]:
+    """Attributes of a class annotated as a set (class body, or `self.x: set[...] = ...` in __init__), or assigned `set(...)` in __init__."""
+    out: set[str] = set()
+    for n in ast.walk(cls):
+        if isinstance(n, ast.AnnAssign) and any(w in ast.unparse(n.annotation) for w in SET_WORDS):
+            t = n.target
+            if isinstance(t, ast.Name):
+                out.add(t.id)
+            elif isinstance(t, ast.Attribute) and isinstance(t.value, ast.Name) and t.value.id == 'self':
+                out.add(t.attr)
+        elif isinstance(n, ast.Assign) and isinstance(n.value, ast.Call) and isinstance(n.value.func, ast.Name) and n.value.func.id in ('set', 'frozenset'):
+            for t in n.targets:
+                if isinstance(t, ast.Attribute) and isinstance(t.value, ast.Name) and t.value.id == 'self':
+                    out.add(t.attr)
+    return out
+
+
+def member_loops(tree: ast.Module) -> list[tuple[str, str, bool]]:
+    """Every loop / comprehension of an export method whose iterable mentions a set-typed attribute of self:
+    (method, attribute, the iterable is sorted(<...self.attr...>) without a key that could tie)."""
+    out: list[tuple[str, str, bool]] = []
+    for c in tree.body:
+        if not isinstance(c, ast.ClassDef):
+            continue
+        sets = set_attrs(c)
+        if not sets:
+            continue
+        for m in c.body:
+            if not (isinstance(m, ast.FunctionDef) and (m.name == 'export' or m.name.startswith('_export'))):
+                continue
+            # single-assignment locals: name -> expression
+            loc: dict[str, ast.AST] = {}
+            cnt: dict[str, int] = {}
+            for n in ast.walk(m):
+                if isinstance(n, ast.Assign) and len(n.targets) == 1 and isinstance(n.targets[0], ast.Name):
+                    cnt[n.targets[0].id] = cnt.get(n.targets[0].id, 0) + 1
+                    loc[n.targets[0].id] = n.value
+
+            def resolve(e: ast.AST, depth: int = 0) -> ast.AST:
+                if isinstance(e, ast.Name) and cnt.get(e.id) == 1 and depth < 4:
+                    return resolve(loc[e.id], depth + 1)
+                return e
+            iters = [n.iter for n in ast.walk(m) if isinstance(n, (ast.For, ast.comprehension))]
+            for it in iters:
+                it = resolve(it)
+                attrs = {x.attr for x in ast.walk(it) if isinstance(x, ast.Attribute) and isinstance(x.value, ast.Name)
+                         and x.value.id == 'self' and x.attr in sets}
+                for x in list(ast.walk(it)):
+                    if isinstance(x, ast.Name) and cnt.get(x.id) == 1:
+                        r = resolve(x)
+                        attrs |= {y.attr for y in ast.walk(r) if isinstance(y, ast.Attribute) and isinstance(y.value, ast.Name)
+                                  and y.value.id == 'self' and y.attr in sets}
+                if not attrs:
+                    continue
+                canonical = (isinstance(it, ast.Call) and isinstance(it.func, ast.Name) and it.func.id == 'sorted'
+                             and len(it.args) == 1 and all(k.arg == 'reverse' and isinstance(k.value, ast.Constant) for k in it.keywords))
+                for a in sorted(attrs):
+                    out.append((f'{c.name}.{m.name}', a, bool(canonical)))
+    return out
+
+
+def gen_sets() -> tuple[str, dict]:
+    tree = ast.parse(src_text('vmf.py'))
+    loops = member_loops(tree)
+    lines = ['(* generated by translate/c06_ids.py from vmf.py -- do not edit *)',
+             'From Coq Require Import List String.', 'From SV Require Import Fmt.VmfSets.', 'Import ListNotations.', 'Open Scope string_scope.', '',
+             'Definition gen_member_loops : list memberloop :=\n  [' + ';\n   '.join(
+                 f'mk_memberloop {_cs(m)} {_cs(a)} {"true" if ok else "false"}' for m, a, ok in loops) + '].']
+    return '\n'.join(lines) + '\n', {'loops': [list(x) for x in loops]}
+
+
+GEN = {'VmfIds_gen': gen_ids, 'VmfSets_gen': gen_sets}
